@@ -214,16 +214,48 @@ impl FsCommand {
     }
 
     fn check_can_rename(source: &Path, target: &Path) -> io::Result<()> {
-        // symlink_metadata doesn't follow links, so a dangling symlink also counts as existing
-        if target.to_path_buf().symlink_metadata().is_ok() {
-            return Err(io::Error::new(
-                ErrorKind::AlreadyExists,
+        let refuse = |kind: ErrorKind, reason: String| {
+            Err(io::Error::new(
+                kind,
                 format!(
-                    "Cannot move {} to {}: Target already exists",
+                    "Cannot move {} to {}: {}",
                     source.display(),
-                    target.display()
+                    target.display(),
+                    reason
                 ),
-            ));
+            ))
+        };
+        // symlink_metadata doesn't follow links, so a dangling symlink also counts as existing
+        match target.to_path_buf().symlink_metadata() {
+            Ok(_) => return refuse(ErrorKind::AlreadyExists, "Target already exists".into()),
+            Err(e) if e.kind() == ErrorKind::NotFound => {}
+            // e.g. one of the parent directories of the target is a file
+            Err(e) => return refuse(e.kind(), e.to_string()),
+        }
+        // The missing parent directories are going to be created.
+        // The first one that exists must be a directory.
+        let mut dir = target.parent();
+        while let Some(d) = dir {
+            match fs::metadata(d.to_path_buf()) {
+                Ok(m) if m.is_dir() => break,
+                Ok(_) => {
+                    return refuse(
+                        ErrorKind::AlreadyExists,
+                        format!("{} is not a directory", d.display()),
+                    )
+                }
+                Err(e) if e.kind() == ErrorKind::NotFound => {
+                    // a dangling symbolic link is in the way as well
+                    if d.to_path_buf().symlink_metadata().is_ok() {
+                        return refuse(
+                            ErrorKind::AlreadyExists,
+                            format!("{} is not a directory", d.display()),
+                        );
+                    }
+                    dir = d.parent();
+                }
+                Err(e) => return refuse(e.kind(), e.to_string()),
+            }
         }
         Ok(())
     }
